@@ -1,11 +1,13 @@
 FILE = "asn1tools/codecs/uper.py"
 
-fields("Integer", minimum=Opt(Int), maximum=Opt(Int), has_extension_marker=Opt(Bool), number_of_bits=Opt(Int))
+fields("Integer", minimum=Opt(Int), maximum=Opt(Int), has_extension_marker=Opt(Bool), number_of_bits=Opt(Int),
+       root_minimum=Union(Int, Lit('MIN'), NoneT), root_maximum=Union(Int, Lit('MAX'), NoneT))
 invariant("Integer", (self.number_of_bits is None) == (self.minimum is None),
           (self.minimum is None) == (self.maximum is None),
+          implies(self.minimum is not None, self.root_minimum == self.minimum and self.root_maximum == self.maximum),
           implies(self.number_of_bits is not None,
                   self.minimum <= self.maximum and self.number_of_bits == blen(self.maximum - self.minimum)))
-fixup("Integer", "import random\nif self.minimum is None or self.maximum is None:\n    self.minimum = self.maximum = self.number_of_bits = None\nelse:\n    self.minimum, self.maximum = min(self.minimum, self.maximum), max(self.minimum, self.maximum)\n    self.number_of_bits = (self.maximum - self.minimum).bit_length()")
+fixup("Integer", "import random\nif self.minimum is None or self.maximum is None:\n    self.minimum = self.maximum = self.number_of_bits = None\nelse:\n    self.minimum, self.maximum = min(self.minimum, self.maximum), max(self.minimum, self.maximum)\n    self.number_of_bits = (self.maximum - self.minimum).bit_length()\n    self.root_minimum, self.root_maximum = self.minimum, self.maximum")
 
 
 @contract("asn1tools/codecs/per.py", "integer_as_number_of_bits", props=["C05"])
@@ -21,6 +23,7 @@ def _(self, minimum: IntOrMin, maximum: IntOrMax, has_extension_marker: Bool):
     no_invariant()
     assigns(self)
     ensures(self.has_extension_marker == has_extension_marker)
+    ensures(self.root_minimum == minimum and self.root_maximum == maximum)
     ensures(implies(minimum != 'MIN' and maximum != 'MAX',
                     self.minimum == minimum and self.maximum == maximum and self.number_of_bits == blen(maximum - minimum)))
     ensures(implies(minimum == 'MIN' or maximum == 'MAX',
@@ -36,7 +39,6 @@ def _(self, data: Int, encoder: Obj("Encoder")):
     requires(-pow2(1000) < data and data < pow2(1000))         # no INTEGER value of 1000 bits exists in practice
     requires(implies(self.number_of_bits is not None and not self.has_extension_marker,
                      self.minimum <= data and data <= self.maximum))          # established by check_constraints (C11)
-    known("F22", self.has_extension_marker is True and self.minimum is None)
     use(blen_upper(data - self.minimum))
     use(blen_upper(self.maximum - self.minimum))
     use(blen_mono(data - self.minimum, self.maximum - self.minimum))
@@ -135,7 +137,7 @@ def _(self, decoder: Obj("Decoder")) -> Tup(Bytes, Nat):
 
 
 @contract("asn1tools/codecs/per.py", "is_in_size_range", props=["C05", "C01", "C12"])
-def _(minimum: Union(Int, Lit('MIN'), NoneT), maximum: Union(Int, Lit('MAX'), NoneT), size: Nat) -> Bool:
+def _(minimum: Union(Int, Lit('MIN'), NoneT), maximum: Union(Int, Lit('MAX'), NoneT), size: Int) -> Bool:
     # total on open bounds: never a TypeError from comparing a number with the 'MIN'/'MAX' sentinel (F24)
     ensures(result == in_size_range(minimum, maximum, size))
 
